@@ -35,6 +35,10 @@ func runVersions(e *simcore.Env, tp *simcore.Tape) {
 		if tp.Bool(1, 2) {
 			flags = append(flags, fmt.Sprintf("--measure-max-merge-parts=%d", tp.Range(2, 8)))
 		}
+		// the query path (vectorized with a batch size, or row-at-a-time) from the side tape: both resolve versions themselves
+		qpFlags, qpTag := simnode.QueryPath(tp.Side().Choose, "measure")
+		flags = append(flags, qpFlags...)
+		e.Event("query path %s %v", qpTag, qpFlags)
 		n, err := simnode.Boot(repo, e.Dir, simnode.Engines{Measure: true}, flags)
 		if err != nil {
 			e.Fail("boot", "boot-failed", "boot: %v", err)
